@@ -44,6 +44,7 @@ type CrashCfg struct {
 	BigTxn              bool        `json:"big_txn"`
 	Pressure            bool        `json:"pressure"`
 	CleanRestartInSetup bool        `json:"clean_restart_in_setup"`
+	HotUpdates          int         `json:"hot_updates,omitempty"` // BigTxn variant: this many in-place updates of one or two rows in one transaction
 	LateTables          []TableSpec `json:"late_tables,omitempty"` // created by ddl ops in the middle of the history
 	PDDL                float64     `json:"p_ddl,omitempty"`
 }
@@ -143,10 +144,21 @@ func genCrashCfg(r *rng, tier string, prop string) CrashCfg {
 		c.Tables[0].Wide = 200
 		c.Frames = 640
 		c.InitRows = 1300 + r.Intn(500)
+		if r.Chance(0.4) {
+			// ... or a minimum pool and a hot row: the same one or two wide rows are updated in place more
+			// than a thousand times (the log buffer fills up while only their page is dirty), then a full
+			// scan evicts that page before the commit
+			c.Frames = 0
+			c.InitRows = 200 + r.Intn(200)
+			c.HotUpdates = 1150 + r.Intn(300)
+		}
 		c.Slots = 1
 		c.PAuto = 0
 		c.PCheckpt = 0
 		c.NOps = 4 + r.Intn(3)
+		if c.HotUpdates > 0 {
+			c.NOps = c.HotUpdates + 4
+		}
 		c.CleanRestartInSetup = false
 		c.MaxImages = 40
 		c.TornPages = false
@@ -211,7 +223,18 @@ func genOp(r *rng, c *CrashCfg, e *Exec, kg *keyGen) Op {
 	if c.Pressure {
 		pEnd = 0.1
 	}
-	if c.BigTxn {
+	if c.BigTxn && c.HotUpdates > 0 {
+		all := &Pred{Logic: "OR", L: &Pred{Col: "k", Op: ">=", Val: int32(0)}, R: &Pred{Col: "k", Op: "<", Val: int32(0)}}
+		switch {
+		case sl.mt.Stmts < c.HotUpdates:
+			hot := int32(1 + r.Intn(2))
+			return Op{T: t, Kind: "stmt", Stmt: &Stmt{Kind: "update", Table: c.Tables[0].Name, Set: []SetItem{{"v", int32(7000 + r.Intn(1000))}}, Where: &Pred{Col: "k", Op: "=", Val: hot}}}
+		case sl.mt.Stmts == c.HotUpdates:
+			return Op{T: t, Kind: "stmt", Stmt: &Stmt{Kind: "select", Table: c.Tables[0].Name, Cols: colNames(&c.Tables[0]), Where: all}}
+		default:
+			pEnd = 1
+		}
+	} else if c.BigTxn {
 		if n >= 1 && r.Chance(0.6) {
 			pEnd = 1
 		} else {
